@@ -629,17 +629,12 @@ impl IggyConsumer {
                     last_consumed_offset.insert(partition_id, AtomicU64::new(0));
                 }
 
+                let mut nothing_new = false;
                 if !allow_replay && has_consumed_offset {
                     polled_messages
                         .messages
                         .retain(|message| message.offset > consumed_offset);
-                    if polled_messages.messages.is_empty() {
-                        return Ok(PolledMessages {
-                            messages: EMPTY_MESSAGES,
-                            current_offset: polled_messages.current_offset,
-                            partition_id,
-                        });
-                    }
+                    nothing_new = polled_messages.messages.is_empty();
                 }
 
                 let stored_offset;
@@ -665,7 +660,8 @@ impl IggyConsumer {
                 );
 
                 if !allow_replay
-                    && (has_consumed_offset && polled_messages.current_offset == consumed_offset)
+                    && has_consumed_offset
+                    && (nothing_new || polled_messages.current_offset == consumed_offset)
                 {
                     trace!("No new messages to consume in partition ID: {partition_id}, topic: {topic_id}, stream: {stream_id}, consumer: {consumer}");
                     if auto_commit_enabled && stored_offset < consumed_offset {
